@@ -237,6 +237,8 @@ pub enum Mode {
 	Unknown,
 	Depth(u32),
 	Mem(usize),
+	/// every limit 0..=U+1 (U measured inside the case, never while building the enumeration)
+	MemSweep,
 }
 
 fn decode_shape<T: Decode + DecodeWithMemTracking>(input: &[u8], mode: Mode) -> (bool, usize) {
@@ -261,6 +263,7 @@ fn decode_shape<T: Decode + DecodeWithMemTracking>(input: &[u8], mode: Mode) -> 
 			drop(r);
 			(ok, 0)
 		},
+		Mode::MemSweep => unreachable!("expanded by run_case"),
 		Mode::Mem(l) => {
 			if l == usize::MAX {
 				let mut m = MemTrackingInput::new(&mut s, usize::MAX);
@@ -371,6 +374,29 @@ fn marker_offsets(b: &[u8]) -> Vec<usize> {
 }
 
 pub fn run_case(shapes: &[ShapeOps], c: &Case, stats: &mut Stats) -> Result<(), Violation> {
+	if c.mode == Mode::MemSweep {
+		// measure the tracked usage first (itself a checked case), then make every allocation site the failing one
+		let probe = Case { mode: Mode::Mem(usize::MAX), fault: "none", ..c.clone() };
+		run_one(shapes, &probe, stats)?;
+		ledger_reset();
+		let u = match catch_unwind(AssertUnwindSafe(|| (shapes[c.shape].decode)(&c.input, Mode::Mem(usize::MAX)))) {
+			Ok((_, u)) => u,
+			Err(_) => {
+				drop(take_panic_message());
+				0
+			},
+		};
+		let limits: Vec<usize> = if u <= 600 { (0..=u + 1).collect() } else { (0..=u + 1).step_by(u / 300 + 1).chain([u - 1, u, u + 1]).collect() };
+		for l in limits {
+			let sub = Case { mode: Mode::Mem(l), fault: if l > u { "none" } else { "mem-limit" }, ..c.clone() };
+			run_one(shapes, &sub, stats)?;
+		}
+		return Ok(());
+	}
+	run_one(shapes, c, stats)
+}
+
+fn run_one(shapes: &[ShapeOps], c: &Case, stats: &mut Stats) -> Result<(), Violation> {
 	let s = &shapes[c.shape];
 	ledger_reset();
 	alloc::start();
@@ -476,12 +502,7 @@ pub fn enumerate(shapes: &[ShapeOps]) -> Vec<Case> {
 			}
 		}
 		// mem-limit errors: every limit 0..=U makes a different allocation site the failing one
-		ledger_reset();
-		let (_, u) = (s.decode)(&good, Mode::Mem(usize::MAX));
-		let limits: Vec<usize> = if u <= 600 { (0..=u + 1).collect() } else { (0..=u + 1).step_by(u / 300 + 1).chain([u - 1, u, u + 1]).collect() };
-		for l in limits {
-			cases.push(Case { shape: si, input: good.clone(), mode: Mode::Mem(l), fault: if l > u { "none" } else { "mem-limit" }, position: 1 });
-		}
+		cases.push(Case { shape: si, input: good.clone(), mode: Mode::MemSweep, fault: "mem-limit-sweep", position: 1 });
 	}
 	ledger_reset();
 	cases
